@@ -107,6 +107,14 @@ def eqf(a, b):
         return conj([inc(a.entries, b.entries), inc(b.entries, a.entries)])
     if isinstance(a, Opaque):
         return True
+    if hasattr(a, "s") and isinstance(getattr(a, "s"), RString):      # syn Ident / LitStr
+        return eqf(a.s, b.s)
+    if hasattr(a, "__slots__"):
+        return conj([eqf(getattr(a, k), getattr(b, k)) for k in a.__slots__])
+    if isinstance(a, dict):
+        return a == b
+    if isinstance(a, list):
+        return conj([len(a) == len(b)] + ([eqf(x, y) for x, y in zip(a, b)] if len(a) == len(b) else []))
     raise Unsupported("eqf of %r" % (a,))
 
 
